@@ -17,6 +17,7 @@ LEAF_IDS = "abcdefghijxyz"
 COMP_IDS = "ABCDEFGHJKLMNPQRSTU"
 COMP_IDS_LATE = "WXYZ"
 COMP_IDS_LOW = "kmnq"
+COMP_IDS_NUM = ["R10", "R9", "x11", "x3"]
 BOUNDS_FAMILIES = {
     "small": [(0, 2), (0, 3), (1, 3), (-1, 1), (-2, 2), (0, 1)],
     "twin": [(0, 2), (1, 1), (0, 3), (1, 2), (-1, 2), (-2, 2), (0, 4), (1, 3), (2, 2)],
@@ -98,7 +99,10 @@ class Gen:
         fam = BOUNDS_FAMILIES[self.p["bounds_family"]]
         pool = LEAF_IDS[:self.p["nleaves"]] if rng.random() < 0.6 else "".join(sorted(rng.sample(LEAF_IDS, min(len(LEAF_IDS), self.p["nleaves"]))))
         pool = list(pool)
-        if rng.random() < 0.12:
+        if rng.random() < 0.08:
+            k = rng.randint(2, min(3, len(pool)))
+            pool = pool[:-k] + ["x10", "x9", "x2"][:k]
+        elif rng.random() < 0.12:
             # digit strings are legal item ids; they look like the integer ids the library gives row indices and
             # default columns
             k = rng.randint(1, min(3, len(pool)))
@@ -238,6 +242,8 @@ class Gen:
                 free = [c for c in COMP_IDS_LATE if c not in used] or free
             elif r0 < 0.2:
                 free = [c for c in COMP_IDS_LOW if c not in used and c not in self.leafb] or free
+            elif r0 < 0.26:
+                free = [c for c in COMP_IDS_NUM if c not in used and c not in self.leafb] or free
             if free:
                 i = rng.choice(free[:8])
                 used.add(i)
@@ -632,6 +638,8 @@ class Gen:
         d = []
         for i in chosen:
             w = rng.choice([-3, -2, -2, -1, -1, 1, 1, 2, 3, 5] + ([0] if allow_zero else []))
+            if rng.random() < 0.04:
+                w = rng.choice([127, 128, 300, 1000, -129, -200, 40000, 2 ** 31])   # past int8/int16/int32
             d.append([i, w])
         if rng.random() < 0.08:
             d.append(["zz", 1])
